@@ -222,6 +222,26 @@ pub fn run(tier: Tier) -> i32 {
             rep.violation(Violation { signature: format!("validator:{sig}"), description: format!("{d} [format {f}, {n} words, {k} x 0xFF, {}]", m.name()), replay: json!({"kind": "validator", "fmt": f, "n": n, "ff": k, "mode": m.name()}) });
         }
     }
+    // the separate row: word contents that imitate the other format's slot padding. A format-2 payload whose
+    // second word starts with six zero bytes (bytes 10..15 of the payload) must still be cut in 10-byte words.
+    {
+        let mut p = Vec::new();
+        p.extend_from_slice(&marked_word(0));
+        p.extend_from_slice(&[0, 0, 0, 0, 0, 0, 0x11, 0x22, 0x00, 0x3D]);
+        p.extend_from_slice(&marked_word(2));
+        p.extend_from_slice(&[0xFF, 0xFF]);
+        let model = payload::slice(&p, 2);
+        let got = val::guarded(|| preprocess_payload(&p).map(|c| c.count()));
+        if let (Sliced::Words(m), Ok(Ok(n))) = (&model, &got) {
+            if m.len() != *n {
+                rep.violation(Violation {
+                    signature: "slice:format-misdetected:format2-second-word-six-zero-bytes".into(),
+                    description: format!("a format-2 payload of {} words whose bytes 10..15 are zero is cut into {n} words (taken for format 0)", m.len()),
+                    replay: json!({"kind": "detector", "payload_hex": hex(&p)}),
+                });
+            }
+        }
+    }
     let mut rcases = Vec::new();
     for fmt in [0u8, 2] {
         for ff in [16usize, 17, 25, 40] {
